@@ -342,7 +342,7 @@ func main() {
 		r.reps = 20
 	}
 	r.cw = vh.NewCases(a, "From Coq Require Import List NArith ZArith.\nFrom Verif Require Import Common.GoStr C17.Model.\nImport ListNotations.\nOpen Scope Z_scope.", "case", "mismatches", 700)
-	r.wd = vh.NewWatchdog(rep, 20*time.Second)
+	r.wd = vh.NewWatchdog(rep, 180*time.Second)
 
 	if a.Replay != "" {
 		b, err := os.ReadFile(a.Replay)
